@@ -50,7 +50,8 @@ STUB = ["aiomqtt connect/publish/subscribe + paho-mqtt + broker (SimMqttClient, 
 ASSUMPTIONS = ["stub client is faithful to aiomqtt's observable contract"]
 REQUIRED_PROBES = ["prefix_with_slash", "payload_with_semicolon", "payload_with_slash", "payload_binary",
                    "payload_empty", "broker_drop", "disconnect_reader_blocked", "disconnect_right_after_connect",
-                   "echo_roundtrip", "hook_subclass", "reads_fifo", "publish_failed", "connect_failed"]
+                   "echo_roundtrip", "hook_subclass", "reads_fifo", "publish_failed", "connect_failed",
+                   "second_session", "reconnect_after_failed_disconnect"]
 SHRINK_LISTS = ("events", "writes", "tapes", "echo")
 
 PREFIXES = [("mygateway1-out", "mygateway1-in"), ("a/b/out", "a/b/in"), ("x", "y"), ("home/ms/1/out", "home/ms/1/in"),
@@ -60,7 +61,7 @@ PAYLOADS = [b"", b"0", b"1", b"20.5", b"a;b", b"55.7;13.0;18", b"a/b", b"x/y;z",
 
 
 def budget(tier):
-    return 2500 if tier == "quick" else 150_000
+    return 8000 if tier == "quick" else 150_000
 
 
 def wall(tier):
@@ -95,7 +96,7 @@ def gen(seed: int, i: int, tier: str) -> dict:
     nreads = rng.randint(0, len(events) + 1)
     cfg = {"in": inp, "out": outp, "reads": nreads, "read_start": rng.choice([0.0, 0.0, 2.25, 7.25]),
            "disconnect_at": rng.choice([0.0, 0.0, 0.75, 3.75, 20.0, 20.0, 20.0]),
-           "echo": rng.random() < 0.35}
+           "echo": rng.random() < 0.35, "second_session": rng.random() < 0.3}
     tapes = {}
     if rng.random() < 0.06:
         tapes["mqtt.connect.fail"] = [1]
@@ -361,6 +362,40 @@ def _phase_client(scn, w, broker, res):
     if not disc["done"] or (disc["exc"] is not None):
         # make sure nothing of this phase leaks into the next
         pass
+    # ---- second session on the same object (a caller's reconnect loop), fault-free ----
+    if cfg.get("second_session") and disc["done"]:
+        res.probes["second_session"] += 1
+        if scn.get("tapes", {}).get("mqtt.disconnect.fail"):
+            res.probes["reconnect_after_failed_disconnect"] += 1
+        w.tapes = Tapes({})
+        t2 = loop.create_task(tr.connect())
+        loop.run_until_idle(100)
+        if not t2.done():
+            res.violate(PROP, "reconnect", "connect-hang", "")
+            t2.cancel()
+        elif t2.exception() is not None:
+            res.violate(PROP, "reconnect", f"connect-raised:{type(t2.exception()).__name__}", repr(t2.exception())[:200])
+        else:
+            ok = broker.inject(f"{inp}/3/1/1/0/2", b"42")
+            seen = []
+            # events of the first session that were never read are still delivered first, in order
+            for _ in range(len(expected) + 3):
+                tr2 = loop.create_task(tr.read())
+                loop.run_until_idle(10)
+                if not tr2.done():
+                    tr2.cancel()
+                    loop.run_until_idle(0)
+                    seen.append("hang")
+                    break
+                seen.append(repr(tr2.exception()) if tr2.exception() is not None else tr2.result().rstrip("\n"))
+                if seen[-1] == "3;1;1;0;2;42":
+                    break
+            if not ok or seen[-1] != "3;1;1;0;2;42":
+                res.violate(PROP, "reconnect", "second-session-deaf", f"inject={ok} reads={seen[-4:]}")
+            t3 = loop.create_task(tr.disconnect())
+            loop.run_until_idle(100)
+            if not t3.done() or t3.exception() is not None:
+                res.violate(PROP, "disconnect", f"raised:{type(t3.exception()).__name__ if t3.done() else 'hang'}:second-session", "")
     res.ops += len(scn["events"]) + len(scn["writes"]) + cfg["reads"]
     special = any(bytes.fromhex(e["payload"]) in (b"", b"\xff\xfe", b"\xc3") or b";" in bytes.fromhex(e["payload"])
                   for e in scn["events"] if e["op"] == "msg")
